@@ -190,6 +190,17 @@ def choices(r, bud, env):
                              if e["id"] in r.d["tasks"] and e.get("status") in ("failed", "timeout", "abandoned")})
             if len(failed) >= 2:
                 out.append(["rerun", [[t, rt, 0] for t, rt in reversed(failed)]])
+            if env.get("rerun_multi") == "all" and failed:
+                # the failed executions together with the succeeded with-items executions
+                okit = sorted({(e["id"], e["route"]) for e in r.c.workflow_state.sequence
+                               if r.d["tasks"].get(e["id"], {}).get("items", -1) > 0 and e.get("status") == "succeeded"})
+                if okit:
+                    out.append(["rerun", [[t, rt, 0] for t, rt in failed + okit]])
+                # every completed execution at once (the conductor collapses the requests)
+                done = sorted({(e["id"], e["route"]) for e in r.c.workflow_state.sequence
+                               if e["id"] in r.d["tasks"] and e.get("status") in COMPLETED})
+                if len(done) >= 2:
+                    out.append(["rerun", [[t, rt, 0] for t, rt in done]])
         if env.get("rerun_tasks"):
             seen = set()
             for e in r.c.workflow_state.sequence:
